@@ -14,10 +14,13 @@ Local Open Scope Z_scope.
 (* ------------------------------------------------------------------ *)
 
 (* the C dialect the emitted code is compiled in by both supported compilers, from the scraped base flags *)
-(* -fwrapv in the effective base flags of EVERY compiler entry of the GNU family (gcc, clang, zig cc, emcc, g++,
-   clang++: Gen.gnu_family_base_has_fwrapv, inheritance and aliases of cdefs.lua resolved) *)
+(* -fwrapv in the effective base flags of every entry of cdefs.compilers_flags that derives from gcc (the family is
+   computed from the inheritance chain by the scraper: Gen.gcc_derived_base_has_fwrapv) *)
 Definition base_mode : cmode :=
-  mk_mode (gcc_base_has_fwrapv && clang_base_has_fwrapv && forallb (fun b => b) gnu_family_base_has_fwrapv) false.
+  mk_mode (gcc_base_has_fwrapv && clang_base_has_fwrapv && forallb (fun b => b) gcc_derived_base_has_fwrapv) false.
+(* the generic entry `cc` is NOT part of base_mode: does a GNU C compiler selected through it get -fwrapv? *)
+Definition generic_cc_wraps : bool :=
+  generic_cc_base_has_fwrapv || (generic_cc_gets_gnu_base && gcc_base_has_fwrapv).
 
 (* the division helpers exactly as emitted: the position of the `b == -1` line comes from Gen.v *)
 Definition idiv_helper := emitted_idiv_helper idiv_guard_first.
